@@ -1073,8 +1073,48 @@ const HOT: &[(&[u8; 4], &[usize])] = &[
 ];
 
 /// tiny hostile programs (raw bytes) for in-place splices
+/// bytecode that leaves 2_097_088_000 on the stack: PUSHW 32767 32767; MUL; PUSHW 8000; MUL
+fn huge_count_code() -> Vec<u8> {
+    vec![0xB9, 0x7F, 0xFF, 0x7F, 0xFF, 0x63, 0xB8, 0x1F, 0x40, 0x63]
+}
+/// (name, opcodes that consume a count / loop counter) for the huge-count generators
+const COUNT_OPS: &[(&str, &[u8])] = &[
+    ("deltap1", &[0x5D]),
+    ("deltap2", &[0x71]),
+    ("deltap3", &[0x72]),
+    ("deltac1", &[0x73]),
+    ("deltac2", &[0x74]),
+    ("deltac3", &[0x75]),
+    ("sloop-shp", &[0x17, 0x32]),
+    ("sloop-shp1", &[0x17, 0x33]),
+    ("sloop-ip", &[0x17, 0x39]),
+    ("sloop-alignrp", &[0x17, 0x3C]),
+    ("sloop-flippt", &[0x17, 0x80]),
+    ("sloop-shpix", &[0x17, 0xB0, 0x40, 0x38]),
+    ("fliprgon", &[0xB0, 0x00, 0x23, 0x81]),
+    ("fliprgoff", &[0xB0, 0x00, 0x23, 0x82]),
+    ("mindex", &[0x26]),
+    ("cindex", &[0x25]),
+    ("loopcall", &[0xB0, 0x00, 0x2A]),
+    ("ws", &[0xB0, 0x01, 0x42]),
+    ("npushb-count", &[0x40]),
+];
+/// `reps` x [huge count; op]
+fn huge_count_program(op: &[u8], reps: usize) -> Vec<u8> {
+    let mut v = vec![];
+    for _ in 0..reps {
+        v.extend(huge_count_code());
+        v.extend_from_slice(op);
+    }
+    v
+}
+
 fn hostile_program(k: u64) -> (&'static str, Vec<u8>) {
-    match k % 8 {
+    if k % 12 >= 8 {
+        let (name, op) = COUNT_OPS[((k / 12) as usize + (k % 12 - 8) as usize * 5) % COUNT_OPS.len()];
+        return (name, huge_count_program(op, 2));
+    }
+    match k % 12 {
         0 => ("tightloop", vec![0xB8, 0xFF, 0xFD, 0x1C]),                                   // PUSHW -3; JMPR
         1 => ("selfjump", vec![0xB0, 0x00, 0x1C]),                                          // offset 0
         2 => ("loopcall", vec![0xB8, 0x7F, 0xFF, 0xB0, 0x00, 0x2A]),                        // LOOPCALL 32767 x f0
@@ -1168,7 +1208,7 @@ fn mutate_font(orig: &[u8], k: usize, rng: &mut Rng) -> (String, Vec<u8>) {
     }
     if kind < 82 {
         // bytecode splice in place: prep / fpgm / glyph instructions
-        let (pname, prog) = hostile_program(rng.below(8));
+        let (pname, prog) = hostile_program(rng.below(12 * 19));
         let which = rng.below(3);
         if which < 2 {
             let tag: &[u8; 4] = if which == 0 { b"prep" } else { b"fpgm" };
@@ -1543,6 +1583,17 @@ fn synthetic_fonts() -> Vec<(String, Vec<u8>)> {
     v.push(("synthetic-prep-tightloop".into(), glyf_font(&[GK::Simple], &[], &[], &[0xB8, 0xFF, 0xFD, 0x1C], 32767, 16, 4)));
     v.push(("synthetic-glyph-tightloop".into(), glyf_font(&[GK::Simple, GK::Composite(vec![0])], &[0xB8, 0xFF, 0xFD, 0x1C], &[], &[0x18], 32767, 16, 4)));
     v.push(("synthetic-fpgm-recursion".into(), glyf_font(&[GK::Simple], &[], &assemble(&[AI::Fdef(0), AI::Call(0), AI::Endf]), &assemble(&[AI::Call(0)]), 0, 16, 4)));
+    // huge counts left on a nearly empty stack for every count-consuming instruction, in prep (always
+    // non-pedantic) and in a glyph program (drawn pedantic and non-pedantic)
+    for (name, op) in COUNT_OPS {
+        let prog = huge_count_program(op, 8);
+        let fdef = assemble(&[AI::Fdef(0), AI::Endf]);
+        v.push((format!("synthetic-hugecount-{}-prep", name), glyf_font(&[GK::Simple], &[], &fdef, &prog, 4, 64, 4)));
+        v.push((format!("synthetic-hugecount-{}-glyph", name), glyf_font(&[GK::Simple, GK::Composite(vec![0])], &prog, &fdef, &[0x18], 4, 64, 4)));
+    }
+    // small fonts for the exhaustive scratch-memory sweep
+    v.push(("synthetic-mem-plain".into(), glyf_font(&[GK::Simple, GK::Composite(vec![0, 0]), GK::Composite(vec![1, 0])], &[], &[], &[], 0, 4, 0)));
+    v.push(("synthetic-mem-hinted".into(), glyf_font(&[GK::Simple, GK::Composite(vec![0, 0])], &[0x18, 0xB0, 1, 0x21], &assemble(&[AI::Fdef(0), AI::Endf]), &[0x18], 3, 5, 2)));
     v.push(("synthetic-maxstack-ffff".into(), glyf_font(&[GK::Simple], &[0x20, 0x20], &[], &[0xB0, 1, 0x20, 0x20], 0, 0xFFFF, 0xFFFF)));
     v
 }
@@ -1765,6 +1816,501 @@ fn exercise_ift(cx: &mut Ctx, font: &[u8], rng: &mut Rng, thorough: bool) {
     }
 }
 
+// ---- exhaustive scratch-memory sweep: every buffer length 0..=required+8 at every misalignment 0..7 ----
+fn exercise_mem(cx: &mut Ctx, data: &[u8], gid: u32, thorough: bool) {
+    use skrifa::instance::{LocationRef, Size};
+    use skrifa::outline::{DrawSettings, Engine, HintingInstance, HintingOptions};
+    use skrifa::raw::types::F2Dot14;
+    use skrifa::MetadataProvider;
+    let Ok(font) = skrifa::FontRef::new(data) else { return };
+    let og = font.outline_glyphs();
+    let Some(glyph) = og.get(skrifa::GlyphId::new(gid)) else {
+        cx.count("mem.no_glyph");
+        return;
+    };
+    let naxes = font.axes().len();
+    let coords: Vec<F2Dot14> = (0..naxes).map(|_| F2Dot14::from_f32(0.5)).collect();
+    let cap = if thorough { 12000 } else { 2600 };
+    let inst = HintingInstance::new(&og, Size::new(16.0), LocationRef::new(&coords), HintingOptions { engine: Engine::Interpreter, target: Default::default() }).ok();
+    for mode in 0..4u8 {
+        // 0 unhinted FreeType style, 1 unhinted HarfBuzz style, 2 hinted non-pedantic, 3 hinted pedantic
+        let hinting = if mode >= 2 { skrifa::outline::Hinting::Embedded } else { skrifa::outline::Hinting::None };
+        if mode >= 2 && inst.is_none() {
+            continue;
+        }
+        let req = glyph.draw_memory_size(hinting);
+        if req > cap {
+            cx.count("mem.skipped_large");
+            continue;
+        }
+        cx.group(&format!("draw.mem.mode{}", mode));
+        let mut big = vec![0u8; req + 8 + 16];
+        let base = big.as_ptr() as usize;
+        let (mut ok, mut err) = (0u64, 0u64);
+        for mis in 0..8usize {
+            let off = (8 - base % 8) % 8 + mis; // (base + off) % 8 == mis
+            for len in 0..=req + 8 {
+                let mem = Some(&mut big[off..off + len]);
+                let r = cx.api("draw.with_memory", || match mode {
+                    0 => glyph.draw(DrawSettings::unhinted(Size::new(16.0), LocationRef::new(&coords)).with_memory(mem), &mut NullPen).is_ok(),
+                    1 => glyph
+                        .draw(DrawSettings::unhinted(Size::new(16.0), LocationRef::new(&coords)).with_memory(mem).with_path_style(skrifa::outline::pen::PathStyle::HarfBuzz), &mut NullPen)
+                        .is_ok(),
+                    2 => glyph.draw(DrawSettings::hinted(inst.as_ref().unwrap(), false).with_memory(mem), &mut NullPen).is_ok(),
+                    _ => glyph.draw(DrawSettings::hinted(inst.as_ref().unwrap(), true).with_memory(mem), &mut NullPen).is_ok(),
+                });
+                match r {
+                    Some(true) => ok += 1,
+                    Some(false) => err += 1,
+                    None => {}
+                }
+                // documented contract: a buffer of the required size (any alignment slack included) suffices
+                if len >= req + 8 && r == Some(false) && mode < 2 {
+                    cx.count("mem.large_buffer_refused");
+                }
+            }
+        }
+        *cx.counters.entry("mem.draw_ok".into()).or_insert(0) += ok;
+        *cx.counters.entry("mem.draw_err".into()).or_insert(0) += err;
+        cx.count(&format!("mem.sweeps.mode{}", mode));
+    }
+}
+
+// ---- IFT format 1 maps built field by field (glyph map + feature map), boundary-rich ----
+#[derive(Clone, Debug)]
+struct F1 {
+    maxe: u16,
+    maxg: u16,
+    first: u16,
+    gentries: Vec<u16>,
+    bitmap: Vec<u8>,
+    pf: u8,
+    recs: Option<Vec<(u32, u16, u16)>>, // (tag, first_new_entry_index, entry_map_count)
+    data: Vec<u8>,                       // entry_map_data
+    feats: Option<Vec<u32>>,             // None = FeatureSet::All
+    cps: Vec<u32>,
+    what: String,
+}
+const F1_GLYPHS: u32 = 15;
+fn f1_width(maxe: u16) -> usize {
+    if maxe < 256 {
+        1
+    } else {
+        2
+    }
+}
+fn put_w(v: &mut Vec<u8>, w: usize, x: u16) {
+    if w == 1 {
+        v.push(x as u8)
+    } else {
+        v.extend_from_slice(&x.to_be_bytes())
+    }
+}
+fn build_f1(c: &F1) -> Vec<u8> {
+    let w = f1_width(c.maxe);
+    let mut t = vec![1u8, 0, 0, 0, 0];
+    t.extend_from_slice(&[0, 0, 0, 1, 0, 0, 0, 2, 0, 0, 0, 3, 0, 0, 0, 4]);
+    t.extend_from_slice(&c.maxe.to_be_bytes());
+    t.extend_from_slice(&c.maxg.to_be_bytes());
+    t.extend_from_slice(&F1_GLYPHS.to_be_bytes()[1..]);
+    let gm_off_pos = t.len();
+    t.extend_from_slice(&[0; 4]);
+    let fm_off_pos = t.len();
+    t.extend_from_slice(&[0; 4]);
+    t.extend_from_slice(&c.bitmap);
+    t.extend_from_slice(&4u16.to_be_bytes());
+    t.extend_from_slice(b"{id}");
+    t.push(c.pf);
+    let gm = t.len() as u32;
+    t[gm_off_pos..gm_off_pos + 4].copy_from_slice(&gm.to_be_bytes());
+    t.extend_from_slice(&c.first.to_be_bytes());
+    for e in &c.gentries {
+        put_w(&mut t, w, *e);
+    }
+    if let Some(recs) = &c.recs {
+        let fm = t.len() as u32;
+        t[fm_off_pos..fm_off_pos + 4].copy_from_slice(&fm.to_be_bytes());
+        t.extend_from_slice(&(recs.len() as u16).to_be_bytes());
+        for (tag, first_new, count) in recs {
+            t.extend_from_slice(&tag.to_be_bytes());
+            put_w(&mut t, w, *first_new);
+            put_w(&mut t, w, *count);
+        }
+        t.extend_from_slice(&c.data);
+    }
+    t
+}
+fn cmap12_identity() -> Vec<u8> {
+    // cp 0x41 + i -> gid i for i in 0..20 (gids 15..19 are beyond maxp.numGlyphs on purpose)
+    let mut t = vec![0u8, 0, 0, 1, 0, 3, 0, 10, 0, 0, 0, 12];
+    t.extend_from_slice(&12u16.to_be_bytes());
+    t.extend_from_slice(&0u16.to_be_bytes());
+    t.extend_from_slice(&28u32.to_be_bytes());
+    t.extend_from_slice(&0u32.to_be_bytes());
+    t.extend_from_slice(&1u32.to_be_bytes());
+    t.extend_from_slice(&0x41u32.to_be_bytes());
+    t.extend_from_slice(&(0x41u32 + 19).to_be_bytes());
+    t.extend_from_slice(&0u32.to_be_bytes());
+    t
+}
+fn f1_font(table: &[u8]) -> Vec<u8> {
+    let glyf: Vec<u8> = vec![1, 2, 3, 4, 5, 0, 6, 7, 8, 0, 9, 10, 11, 12];
+    let offs: [u16; 16] = [0, 3, 5, 5, 5, 5, 5, 5, 5, 7, 7, 7, 7, 7, 7, 7];
+    let loca: Vec<u8> = offs.iter().flat_map(|o| o.to_be_bytes()).collect();
+    let mut head = head_table();
+    head[50..52].copy_from_slice(&be16(0));
+    build_sfnt(&[
+        (b"head", head),
+        (b"maxp", maxp_table(F1_GLYPHS as u16, 16, 0)),
+        (b"loca", loca),
+        (b"glyf", glyf),
+        (b"cmap", cmap12_identity()),
+        (b"IFT ", table.to_vec()),
+    ])
+}
+fn tag4(s: &[u8; 4]) -> u32 {
+    u32::from_be_bytes(*s)
+}
+fn f1_cases(seed: u64, thorough: bool) -> Vec<F1> {
+    let mut rng = Rng::new(seed ^ 0x4946_5431);
+    let mut v: Vec<F1> = vec![];
+    let tags = [tag4(b"aalt"), tag4(b"dlig"), tag4(b"liga"), tag4(b"null"), tag4(b"smcp"), tag4(b"zero")];
+    let n = if thorough { 2500 } else { 520 };
+    for i in 0..n {
+        let maxe: u16 = *rng.pick(&[0u16, 1, 3, 20, 254, 255, 256, 257, 400, 65534, 65535]);
+        let w = f1_width(maxe);
+        let maxg: u16 = match rng.below(6) {
+            0 => 0,
+            1 => maxe,
+            2 => maxe.saturating_sub(1),
+            3 if maxe < 65535 && i % 7 == 0 => maxe + 1, // invalid: maxg > maxe
+            _ => rng.below(maxe as u64 + 1) as u16,
+        };
+        let first = *rng.pick(&[0u16, 0, 1, 2, 14, 15]);
+        let wmax: u64 = if w == 1 { 255 } else { 65535 };
+        let gentries: Vec<u16> = (0..(F1_GLYPHS as u16 - first))
+            .map(|_| match rng.below(6) {
+                0 => 0,
+                1 => maxg,
+                2 => (maxg as u64 + 1).min(wmax) as u16,
+                3 => maxe.min(wmax as u16),
+                _ => rng.below(maxg.min(8) as u64 + 1) as u16,
+            })
+            .collect();
+        let blen = (maxe as usize + 1).div_ceil(8);
+        let mut bitmap = vec![0u8; blen];
+        for _ in 0..rng.below(3) {
+            let e = rng.below(maxe.min(12) as u64 + 1) as usize;
+            bitmap[e / 8] |= 1 << (e % 8);
+        }
+        let pf = if i % 11 == 0 { *rng.pick(&[0u8, 4, 255]) } else { *rng.pick(&[1u8, 2, 3, 3]) };
+        // feature records
+        let recs_and_data = if rng.chance(1, 8) {
+            None
+        } else {
+            let nrec = rng.below(4) as usize;
+            let mut recs = vec![];
+            let mut used: Vec<u32> = vec![];
+            for _ in 0..nrec {
+                let tag = if rng.chance(1, 6) && !used.is_empty() { *rng.pick(&used) } else { *rng.pick(&tags) };
+                used.push(tag);
+                let first_new = match rng.below(7) {
+                    0 => (maxg as u64 + 1).min(wmax) as u16,
+                    1 => maxe.min(wmax as u16),
+                    2 => wmax as u16,
+                    3 => (wmax - 1) as u16,
+                    4 => maxg,
+                    _ => rng.below(maxe as u64 + 2).min(wmax) as u16,
+                };
+                let count = *rng.pick(&[0u16, 1, 1, 2, 2, 3, 5]);
+                recs.push((tag, first_new, count));
+            }
+            if rng.chance(2, 3) {
+                recs.sort_by_key(|r| r.0);
+            }
+            let total: usize = recs.iter().map(|r| r.2 as usize).sum();
+            let mut data = vec![];
+            for _ in 0..total {
+                let a = match rng.below(5) {
+                    0 => 0,
+                    1 => maxg.min(wmax as u16),
+                    2 => (maxg as u64 + 1).min(wmax) as u16,
+                    _ => rng.below(maxg.min(8) as u64 + 1) as u16,
+                };
+                let b = match rng.below(5) {
+                    0 => a,
+                    1 => maxg.min(wmax as u16),
+                    2 => a.saturating_sub(1),
+                    _ => (a as u64 + rng.below(3)).min(wmax) as u16,
+                };
+                put_w(&mut data, w, a);
+                put_w(&mut data, w, b);
+            }
+            // the records end exactly at the table end, or one byte short, or have a tail
+            match rng.below(8) {
+                0 if !data.is_empty() => {
+                    data.pop();
+                }
+                1 => {
+                    let k = 1 + rng.below(4) as usize;
+                    data.extend(rng.bytes(k));
+                }
+                _ => {}
+            }
+            Some((recs, data))
+        };
+        let feats = match rng.below(5) {
+            0 | 1 => None,
+            2 => Some(vec![]),
+            _ => {
+                let mut f: Vec<u32> = (0..1 + rng.below(4)).map(|_| if rng.chance(1, 5) { tag4(b"kern") } else { *rng.pick(&tags) }).collect();
+                f.sort();
+                f.dedup();
+                Some(f)
+            }
+        };
+        let cps: Vec<u32> = match rng.below(4) {
+            0 => vec![],
+            1 => (0x41..0x41 + 15).collect(),
+            2 => (0x41..0x41 + 20).collect(),
+            _ => (0..1 + rng.below(5)).map(|_| 0x41 + rng.below(16) as u32).collect(),
+        };
+        let (recs, data) = match recs_and_data {
+            Some((r, d)) => (Some(r), d),
+            None => (None, vec![]),
+        };
+        v.push(F1 { maxe, maxg, first, gentries, bitmap, pf, recs, data, feats, cps, what: "random".into() });
+    }
+    // directed: the field-width boundary with records that end at the table end
+    for maxe in [254u16, 255, 256] {
+        for nrec in [1usize, 2, 3] {
+            for feats in [None, Some(vec![tag4(b"dlig"), tag4(b"liga"), tag4(b"smcp")])] {
+                let w = f1_width(maxe);
+                let recs: Vec<(u32, u16, u16)> = (0..nrec).map(|k| ([tag4(b"dlig"), tag4(b"liga"), tag4(b"smcp")][k], maxe - k as u16 * 3, 3)).collect();
+                let mut data = vec![];
+                for _ in 0..nrec * 3 {
+                    put_w(&mut data, w, 1);
+                    put_w(&mut data, w, 2);
+                }
+                v.push(F1 { maxe, maxg: 10, first: 0, gentries: (0..15).map(|g| g % 4).collect(), bitmap: vec![0; (maxe as usize + 1).div_ceil(8)], pf: 3,
+                    recs: Some(recs), data, feats, cps: (0x41..0x41 + 15).collect(), what: format!("width-boundary-{}", maxe) });
+            }
+        }
+    }
+    // directed: first_new_entry_index + i beyond u16
+    for feats in [None, Some(vec![tag4(b"liga")])] {
+        v.push(F1 { maxe: 65535, maxg: 10, first: 0, gentries: (0..15).map(|g| g % 4).collect(), bitmap: vec![0; 8192], pf: 3,
+            recs: Some(vec![(tag4(b"liga"), 65535, 2)]), data: vec![0, 1, 0, 2, 0, 1, 0, 2], feats, cps: (0x41..0x41 + 15).collect(), what: "first-new-add-overflow".into() });
+    }
+    // directed: u16 arithmetic on hostile counts (large tables: implementation-only, not sent to Coq)
+    for (maxe, count, what) in [(65535u16, 16385u16, "index-mul-overflow"), (65535, 40000, "cumulative-overflow"), (300, 20000, "index-mul-overflow-300")] {
+        let mut data = vec![];
+        for _ in 0..count as usize * 2 {
+            data.extend_from_slice(&[0, 1, 0, 2]);
+        }
+        v.push(F1 { maxe, maxg: 10, first: 0, gentries: (0..15).map(|g| g % 4).collect(), bitmap: vec![0; (maxe as usize + 1).div_ceil(8)], pf: 3,
+            recs: Some(vec![(tag4(b"dlig"), 100, count), (tag4(b"liga"), 200, count)]), data, feats: None, cps: (0x41..0x41 + 15).collect(), what: what.into() });
+    }
+    v
+}
+fn exec_f1(cx: &mut Ctx, c: &F1) -> (i64, Vec<i64>) {
+    let table = build_f1(c);
+    let font = f1_font(&table);
+    let Ok(fr) = skrifa::FontRef::new(&font) else { return (7, vec![]) };
+    let feats = match &c.feats {
+        None => FeatureSet::All,
+        Some(f) => FeatureSet::Set(f.iter().map(|t| skrifa::Tag::from_be_bytes(t.to_be_bytes())).collect()),
+    };
+    let subset = SubsetDefinition::new(c.cps.iter().copied().collect(), feats, Default::default());
+    match cx.api("patchmap::intersecting_patches", || incremental_font_transfer::patchmap::intersecting_patches(&fr, &subset)) {
+        None => (2, vec![]),
+        Some(Err(_)) => (1, vec![]),
+        Some(Ok(uris)) => {
+            let ids = uris
+                .iter()
+                .map(|u| {
+                    let d = format!("{:?}", u);
+                    d.split("Numeric(").nth(1).and_then(|r| r.split(')').next()).and_then(|n| n.parse::<i64>().ok()).unwrap_or(-1)
+                })
+                .collect();
+            (0, ids)
+        }
+    }
+}
+
+// ---- IFT format 2 maps: hostile entry streams ----
+struct F2 {
+    default_fmt: u8,
+    entry_count: u32,
+    data: Vec<u8>,
+    what: String,
+}
+fn build_f2(c: &F2) -> (Vec<u8>, usize) {
+    let mut t = vec![2u8, 0, 0, 0, 0];
+    t.extend_from_slice(&[0, 0, 0, 1, 0, 0, 0, 2, 0, 0, 0, 3, 0, 0, 0, 4]);
+    t.push(c.default_fmt);
+    t.extend_from_slice(&c.entry_count.to_be_bytes()[1..]);
+    let off_pos = t.len();
+    t.extend_from_slice(&[0; 4]);
+    t.extend_from_slice(&[0; 4]); // no id string data
+    t.extend_from_slice(&4u16.to_be_bytes());
+    t.extend_from_slice(b"{id}");
+    let off = t.len();
+    t[off_pos..off_pos + 4].copy_from_slice(&(off as u32).to_be_bytes());
+    t.extend_from_slice(&c.data);
+    (t, off)
+}
+fn f2_random_entry(rng: &mut Rng, nprior: usize) -> Vec<u8> {
+    use read_fonts::collections::IntSet;
+    let mut flags: u8 = 0;
+    for bit in [1u8, 2, 4, 8, 16, 32, 64] {
+        if rng.chance(1, 3) {
+            flags |= bit;
+        }
+    }
+    if rng.chance(1, 40) {
+        flags |= 128;
+    }
+    let mut e = vec![flags];
+    if flags & 1 != 0 {
+        let fc = rng.below(3) as u8;
+        e.push(fc);
+        for _ in 0..fc {
+            let tg: [u8; 4] = *rng.pick(&[*b"liga", *b"smcp", *b"dlig"]);
+            e.extend_from_slice(&tg);
+        }
+        let dc = rng.below(3) as u16;
+        e.extend_from_slice(&dc.to_be_bytes());
+        for _ in 0..dc {
+            let tg: [u8; 4] = *rng.pick(&[*b"wght", *b"wdth"]);
+            e.extend_from_slice(&tg);
+            let a = *rng.pick(&[0i32, 100 << 16, -(5 << 16), i32::MIN, i32::MAX]);
+            let b = if rng.chance(1, 8) { a.wrapping_sub(1) } else { *rng.pick(&[a, a.saturating_add(1 << 16), i32::MAX]) };
+            e.extend_from_slice(&a.to_be_bytes());
+            e.extend_from_slice(&b.max(if rng.chance(1, 10) { i32::MIN } else { a }).to_be_bytes());
+        }
+    }
+    if flags & 2 != 0 {
+        let cnt = rng.below(4) as u8;
+        e.push(cnt | if rng.chance(1, 2) { 0x80 } else { 0 });
+        for _ in 0..cnt {
+            let idx: u32 = if nprior > 0 && rng.chance(7, 8) { rng.below(nprior as u64) as u32 } else { *rng.pick(&[nprior as u32, nprior as u32 + 1, 0xFFFFFF]) };
+            e.extend_from_slice(&idx.to_be_bytes()[1..]);
+        }
+    }
+    if flags & 4 != 0 {
+        let d: i32 = *rng.pick(&[0i32, 1, 2, -1, -2, -3, 5, 100, 8388607, -8388608, -100]);
+        e.extend_from_slice(&d.to_be_bytes()[1..]);
+    }
+    if flags & 8 != 0 {
+        e.push(*rng.pick(&[1u8, 2, 3, 3, 3, 0, 4, 255]));
+    }
+    let fmt = flags & 0x30;
+    if fmt != 0 {
+        let bias: u32 = if fmt == 0x20 { *rng.pick(&[0u32, 5, 65535]) } else if fmt == 0x30 { *rng.pick(&[0u32, 70000, 0x10FFFF, 0xFFFFFF]) } else { 0 };
+        if fmt == 0x20 {
+            e.extend_from_slice(&(bias as u16).to_be_bytes());
+        } else if fmt == 0x30 {
+            e.extend_from_slice(&bias.to_be_bytes()[1..]);
+        }
+        let mut set = IntSet::<u32>::empty();
+        for _ in 0..rng.below(5) {
+            set.insert(*rng.pick(&[0u32, 1, 7, 8, 63, 64, 300, 5000]) + rng.below(3) as u32);
+        }
+        let mut sbs = set.to_sparse_bit_set();
+        if rng.chance(1, 12) && !sbs.is_empty() {
+            let k = rng.below(sbs.len() as u64) as usize;
+            sbs[k] = rng.next_u32() as u8;
+        }
+        e.extend_from_slice(&sbs);
+    }
+    e
+}
+fn f2_cases(seed: u64, thorough: bool) -> Vec<F2> {
+    let mut rng = Rng::new(seed ^ 0x4946_5432);
+    let mut v = vec![];
+    let n = if thorough { 3000 } else { 600 };
+    for i in 0..n {
+        let ne = rng.below(6) as usize;
+        let mut data = vec![];
+        for k in 0..ne {
+            data.extend(f2_random_entry(&mut rng, k));
+        }
+        let mut count = ne as u32;
+        match rng.below(10) {
+            0 => count += 1 + rng.below(3) as u32,         // more entries announced than present
+            1 => count = count.saturating_sub(1),          // trailing data ignored
+            2 => count = *rng.pick(&[0xFFFFFFu32, 0x800000, 1000]),
+            3 if !data.is_empty() => {
+                let l = rng.below(data.len() as u64) as usize;
+                data.truncate(l);
+            }
+            4 => data.extend(rng.bytes(3)),
+            _ => {}
+        }
+        let default_fmt = if i % 13 == 0 { *rng.pick(&[0u8, 4, 200]) } else { *rng.pick(&[1u8, 2, 3]) };
+        v.push(F2 { default_fmt, entry_count: count, data, what: "random".into() });
+    }
+    // directed: entry_count far beyond the data; every entry a bare flags byte
+    v.push(F2 { default_fmt: 3, entry_count: 0xFFFFFF, data: vec![0; 40], what: "count-beyond-data".into() });
+    v.push(F2 { default_fmt: 3, entry_count: 40, data: vec![0; 40], what: "bare-flags".into() });
+    v.push(F2 { default_fmt: 3, entry_count: 41, data: vec![0; 40], what: "bare-flags-plus-one".into() });
+    // id arithmetic: deltas that drive the id below zero / above u32::MAX
+    let mut d = vec![];
+    for _ in 0..3 {
+        d.extend_from_slice(&[4u8, 0x80, 0x00, 0x00]); // delta -8388608
+    }
+    v.push(F2 { default_fmt: 3, entry_count: 3, data: d, what: "id-negative".into() });
+    let mut d = vec![];
+    for _ in 0..520 {
+        d.extend_from_slice(&[4u8, 0x7F, 0xFF, 0xFF]); // 520 * 8388608 > u32::MAX
+    }
+    v.push(F2 { default_fmt: 3, entry_count: 520, data: d.clone(), what: "id-above-u32".into() });
+    v.push(F2 { default_fmt: 3, entry_count: 511, data: d, what: "id-near-u32-max".into() });
+    // implementation-only: a long chain of ignored entries, each the child of its predecessor, then one
+    // live entry (recursion depth of EntryIntersectionCache::intersects)
+    for nchain in [20_000u32, 400_000] {
+        let mut d = vec![0u8]; // entry 0: bare
+        for k in 1..nchain {
+            d.push(0x42); // CHILD_INDICES | IGNORED
+            d.push(1);
+            d.extend_from_slice(&(k - 1).to_be_bytes()[1..]);
+        }
+        d.push(0x02);
+        d.push(1);
+        d.extend_from_slice(&(nchain - 1).to_be_bytes()[1..]);
+        v.push(F2 { default_fmt: 3, entry_count: nchain + 1, data: d, what: format!("ignored-child-chain-{}", nchain) });
+    }
+    v
+}
+fn exec_f2(cx: &mut Ctx, c: &F2) -> (i64, Vec<(i64, i64, i64)>, usize) {
+    use incremental_font_transfer::patchmap::PatchFormat;
+    let (table, off) = build_f2(c);
+    let font = f1_font(&table);
+    let Ok(fr) = skrifa::FontRef::new(&font) else { return (7, vec![], off) };
+    let subset = SubsetDefinition::all();
+    match cx.api("patchmap::intersecting_patches", || incremental_font_transfer::patchmap::intersecting_patches(&fr, &subset)) {
+        None => (2, vec![], off),
+        Some(Err(_)) => (1, vec![], off),
+        Some(Ok(uris)) => {
+            let es = uris
+                .iter()
+                .map(|u| {
+                    let d = format!("{:?}", u);
+                    let num = |key: &str, close: char| d.split(key).nth(1).and_then(|r| r.split(close).next()).and_then(|n| n.trim().parse::<i64>().ok()).unwrap_or(-1);
+                    let pf = match u.encoding() {
+                        PatchFormat::TableKeyed { fully_invalidating: true } => 1,
+                        PatchFormat::TableKeyed { fully_invalidating: false } => 2,
+                        PatchFormat::GlyphKeyed => 3,
+                    };
+                    (num("Numeric(", ')'), num("application_flag_bit_index: ", ','), pf)
+                })
+                .collect();
+            (0, es, off)
+        }
+    }
+}
+
 // ---- task list (identical in every process) ----
 #[derive(Clone)]
 enum Task {
@@ -1772,6 +2318,9 @@ enum Task {
     Comp(usize),
     Fuzz { font: usize, m: usize },
     Ift { fix: usize, m: usize },
+    Mem { font: usize, gid: u32 },
+    Ift1(usize),
+    Ift2(usize),
 }
 
 struct World {
@@ -1781,6 +2330,8 @@ struct World {
     comps: Vec<CompCase>,
     fonts: Vec<(String, Vec<u8>)>,
     ift: Vec<(&'static str, Vec<u8>)>,
+    f1: Vec<F1>,
+    f2: Vec<F2>,
     tasks: Vec<Task>,
 }
 
@@ -1818,13 +2369,29 @@ fn build_world(seed: u64, thorough: bool) -> World {
             }
         }
     }
+    // exhaustive scratch-memory sweeps
+    for (f, (name, _)) in fonts.iter().enumerate() {
+        if ["synthetic-mem-plain", "synthetic-mem-hinted", "vazirmatn_var_trimmed.ttf", "tthint_subset.ttf", "glyf_components.ttf", "cvar.ttf"].contains(&name.as_str()) {
+            for gid in [0u32, 1, 2, 3, 5] {
+                tasks.push(Task::Mem { font: f, gid });
+            }
+        }
+    }
+    let f1 = f1_cases(seed, thorough);
+    for i in 0..f1.len() {
+        tasks.push(Task::Ift1(i));
+    }
+    let f2 = f2_cases(seed, thorough);
+    for i in 0..f2.len() {
+        tasks.push(Task::Ift2(i));
+    }
     let nim = if thorough { 60000 } else { 8000 };
     for m in 0..nim {
         for fix in 0..ift.len() {
             tasks.push(Task::Ift { fix, m });
         }
     }
-    World { seed, thorough, runs, comps, fonts, ift, tasks }
+    World { seed, thorough, runs, comps, fonts, ift, f1, f2, tasks }
 }
 
 fn run_task(w: &World, idx: usize, totals: &mut std::collections::BTreeMap<String, u64>, evals: &mut u64) {
@@ -1880,6 +2447,82 @@ fn run_task(w: &World, idx: usize, totals: &mut std::collections::BTreeMap<Strin
             exercise_font(&mut cx, &data, &mut rng, w.thorough);
             if cx.counters.contains_key("fuzz.font_accepted") && *m > 0 {
                 wline(&format!("N {}", cx.key));
+            }
+            *evals += cx.evals;
+            for (k, v) in cx.counters {
+                *totals.entry(k).or_insert(0) += v;
+            }
+        }
+        Task::Mem { font, gid } => {
+            let (name, bytes) = &w.fonts[*font];
+            let key = format!("{}:mem-sweep-gid{}", name, gid);
+            wline(&format!("B {} {}", idx, key));
+            let mut cx = Ctx { task: idx, key, counters: Default::default(), evals: 0, failures: 0, sites: vec![] };
+            exercise_mem(&mut cx, bytes, *gid, w.thorough);
+            *evals += cx.evals;
+            for (k, v) in cx.counters {
+                *totals.entry(k).or_insert(0) += v;
+            }
+        }
+        Task::Ift1(i) => {
+            let c = &w.f1[*i];
+            let key = format!("ift-format1-{}:#{}", c.what, i);
+            wline(&format!("B {} {}", idx, key));
+            wline("A patchmap::intersecting_patches");
+            let mut cx = Ctx { task: idx, key, counters: Default::default(), evals: 0, failures: 0, sites: vec![] };
+            let obs = exec_f1(&mut cx, c);
+            cx.count(&format!("f1.status{}", obs.0));
+            if !obs.1.is_empty() {
+                cx.count("f1.nonempty_result");
+                wline(&format!("N f1 {} {:?}", i, obs));
+            }
+            if c.data.len() <= 600 {
+                wline(&format!(
+                    "C {} CaseF1 {} {} {} {} {} {} {} {} {} {} ({}, {})",
+                    idx,
+                    c.maxe,
+                    c.maxg,
+                    c.first,
+                    czlist(c.gentries.iter().map(|v| *v as i128)),
+                    // Charmap::map never returns glyph 0 (cp 0x41 -> .notdef is treated as unmapped)
+                    czlist(c.cps.iter().filter(|cp| **cp != 0x41).map(|cp| (*cp - 0x41) as i128)),
+                    cbytes(&c.bitmap),
+                    c.pf,
+                    copt(c.recs.as_ref().map(|r| clist(r.iter(), |(t, f, n)| format!("({}, {}, {})", t, f, n)))),
+                    cbytes(&c.data),
+                    copt(c.feats.as_ref().map(|f| czlist(f.iter().map(|t| *t as i128)))),
+                    obs.0,
+                    czlist(obs.1.iter().map(|v| *v as i128))
+                ));
+            }
+            *evals += cx.evals;
+            for (k, v) in cx.counters {
+                *totals.entry(k).or_insert(0) += v;
+            }
+        }
+        Task::Ift2(i) => {
+            let c = &w.f2[*i];
+            let key = format!("ift-format2-{}:#{}", c.what, i);
+            wline(&format!("B {} {}", idx, key));
+            wline("A patchmap::intersecting_patches");
+            let mut cx = Ctx { task: idx, key, counters: Default::default(), evals: 0, failures: 0, sites: vec![] };
+            let obs = exec_f2(&mut cx, c);
+            cx.count(&format!("f2.status{}", obs.0));
+            if !obs.1.is_empty() {
+                cx.count("f2.nonempty_result");
+                wline(&format!("N f2 {} {:?}", i, obs.1));
+            }
+            if c.data.len() <= 2200 {
+                wline(&format!(
+                    "C {} CaseF2 {} {} {} {} ({}, {})",
+                    idx,
+                    c.default_fmt,
+                    c.entry_count,
+                    obs.2,
+                    cbytes(&c.data),
+                    obs.0,
+                    clist(obs.1.iter(), |e| format!("({}, {}, {})", e.0, e.1, e.2))
+                ));
             }
             *evals += cx.evals;
             for (k, v) in cx.counters {
